@@ -982,9 +982,19 @@ func (d *jsonDecDriver[T]) dblQuoteStringAsBytes() (buf []byte, usingBuf bool) {
 	checkUtf8 := d.h.ValidateUnicode
 	usingBuf = true
 
+	// hi is a surrogate read from a \uXXXX escape and not yet written: it is
+	// combined with the next \uXXXX escape iff that follows it immediately,
+	// else it is written as the replacement char (and nothing else is consumed).
+	var hi rune
+
 	for {
 		// c is now '\'
 		c = d.r.readn1()
+
+		if hi != 0 && c != 'u' {
+			buf = d.appendStringAsBytesLoneSurrogate(buf, checkUtf8)
+			hi = 0
+		}
 
 		switch c {
 		case '"', '\\', '/', '\'':
@@ -1000,7 +1010,16 @@ func (d *jsonDecDriver[T]) dblQuoteStringAsBytes() (buf []byte, usingBuf bool) {
 		case 't':
 			buf = append(buf, '\t')
 		case 'u':
-			rr := d.appendStringAsBytesSlashU()
+			rr := rune(jsonSlashURune(d.r.readn4()))
+			if hi != 0 {
+				// a \uXXXX right after a surrogate is its second half:
+				// the two make one rune (the replacement char unless a valid pair)
+				rr = utf16.DecodeRune(hi, rr)
+				hi = 0
+			} else if utf16.IsSurrogate(rr) {
+				hi = rr // wait for what follows it
+				break
+			}
 			if checkUtf8 && rr == unicode.ReplacementChar {
 				d.buf = buf
 				halt.errorBytes("invalid UTF-8 character found after: ", buf)
@@ -1012,6 +1031,10 @@ func (d *jsonDecDriver[T]) dblQuoteStringAsBytes() (buf []byte, usingBuf bool) {
 		}
 
 		bs, c = d.r.jsonReadAsisChars()
+		if hi != 0 && (len(bs) != 0 || c == '"') {
+			buf = d.appendStringAsBytesLoneSurrogate(buf, checkUtf8)
+			hi = 0
+		}
 		buf = append(buf, bs...)
 		if c == '"' {
 			break
@@ -1021,25 +1044,14 @@ func (d *jsonDecDriver[T]) dblQuoteStringAsBytes() (buf []byte, usingBuf bool) {
 	return
 }
 
-func (d *jsonDecDriver[T]) appendStringAsBytesSlashU() (r rune) {
-	var rr uint32
-	cs := d.r.readn4()
-	if rr = jsonSlashURune(cs); rr == unicode.ReplacementChar {
-		return unicode.ReplacementChar
+// appendStringAsBytesLoneSurrogate writes the replacement char for a \uXXXX escape
+// holding a surrogate that is not part of a surrogate pair.
+func (d *jsonDecDriver[T]) appendStringAsBytesLoneSurrogate(buf []byte, checkUtf8 bool) []byte {
+	if checkUtf8 {
+		d.buf = buf
+		halt.errorBytes("invalid UTF-8 character found after: ", buf)
 	}
-	r = rune(rr)
-	if utf16.IsSurrogate(r) {
-		csu := d.r.readn2()
-		cs = d.r.readn4()
-		if csu[0] == '\\' && csu[1] == 'u' {
-			if rr = jsonSlashURune(cs); rr == unicode.ReplacementChar {
-				return unicode.ReplacementChar
-			}
-			return utf16.DecodeRune(r, rune(rr))
-		}
-		return unicode.ReplacementChar
-	}
-	return
+	return append(buf, d.bstr[:utf8.EncodeRune(d.bstr[:], unicode.ReplacementChar)]...)
 }
 
 func (d *jsonDecDriver[T]) DecodeNaked() {
